@@ -25,53 +25,66 @@ int str_to_instr__c(struct instr *instr_data, const char unfiltered_str[], int *
    * consecutive iterations see consecutive lines; they are proved on the real body in C06.str_to_instr) */
   STR_TO_INSTR_POST_RANGE(instr_data, unfiltered_str, read_len, (g_str + g_n) - unfiltered_str);
 
-#define LSTEP_PRE(al, I, buf_pos)                                                              \
-  __CPROVER_requires(__CPROVER_rw_ok(al, sizeof(struct assemblyline)) && al->external && al->buffer_len >= 0) \
-  __CPROVER_requires(__CPROVER_rw_ok(al->buffer, al->buffer_len))                               \
-  __CPROVER_requires(__CPROVER_rw_ok(I, sizeof(struct instr)) && rec_inv(I))                    \
-  __CPROVER_requires(__CPROVER_rw_ok(buf_pos, sizeof(unsigned)) && *buf_pos <= (unsigned)al->buffer_len) \
+#define LSTEP_PRE(VA, V, al, I, buf_pos)                                                              \
+  __CPROVER_requires(VA(al, sizeof(struct assemblyline)) && al->external && al->buffer_len >= 0) \
+  __CPROVER_requires(V(al->buffer, al->buffer_len))                               \
+  __CPROVER_requires(V(I, sizeof(struct instr)) && rec_inv(I))                    \
+  __CPROVER_requires(V(buf_pos, sizeof(unsigned)) && *buf_pos <= (unsigned)al->buffer_len) \
   __CPROVER_requires(g_steps >= 0 && g_steps < 0x7fffffff)
+/* the ghost counters g_steps / g_cross are bookkeeping of the loop proof: the usage form updates them (GH(x) = x), the
+ * enforcement form, proved on the real body, has the same clauses without them (GH(x) = nothing, GE(c) = true) */
+#define GH_COMMA ,
+#define GH_ON(x) x
+#define GH_OFF(x)
+#define GE_ON(c) (c)
+#define GE_OFF(c) 1
 #define LROOM(al, p) ((long)(p) + BUFFER_TOLERANCE <= (long)(al)->buffer_len)
 
-int assemble__l(assemblyline_t al, struct instr *I, unsigned int *buf_pos)
-  LSTEP_PRE(al, I, buf_pos)
-  __CPROVER_assigns(*buf_pos, g_steps, __CPROVER_object_whole(I);
-        LROOM(al, *buf_pos) : __CPROVER_object_upto(al->buffer + *buf_pos, BUFFER_TOLERANCE))
-  __CPROVER_ensures(__CPROVER_return_value == EXIT_SUCCESS || __CPROVER_return_value == EXIT_FAILURE)
-  __CPROVER_ensures((__CPROVER_return_value == EXIT_FAILURE) == !LROOM(al, __CPROVER_old(*buf_pos)))
-  __CPROVER_ensures(__CPROVER_return_value == EXIT_FAILURE ==> *buf_pos == __CPROVER_old(*buf_pos))
-  __CPROVER_ensures(__CPROVER_return_value == EXIT_SUCCESS ==>
-        __CPROVER_old(*buf_pos) < *buf_pos && *buf_pos <= __CPROVER_old(*buf_pos) + BUFFER_TOLERANCE &&
-        *buf_pos <= (unsigned)al->buffer_len)
-  __CPROVER_ensures(g_steps == __CPROVER_old(g_steps) + 1);
+#define ASSEMBLE_L_CONTRACT(VA, V, GH, GE) \
+  LSTEP_PRE(VA, V, al, I, buf_pos) \
+  __CPROVER_assigns(*buf_pos, GH(g_steps GH_COMMA) __CPROVER_object_whole(I); \
+        LROOM(al, *buf_pos) : __CPROVER_object_upto(al->buffer + *buf_pos, BUFFER_TOLERANCE)) \
+  __CPROVER_ensures(__CPROVER_return_value == EXIT_SUCCESS || __CPROVER_return_value == EXIT_FAILURE) \
+  __CPROVER_ensures((__CPROVER_return_value == EXIT_FAILURE) == !LROOM(al, __CPROVER_old(*buf_pos))) \
+  __CPROVER_ensures(__CPROVER_return_value == EXIT_FAILURE ==> *buf_pos == __CPROVER_old(*buf_pos)) \
+  __CPROVER_ensures(__CPROVER_return_value == EXIT_SUCCESS ==> \
+        __CPROVER_old(*buf_pos) < *buf_pos && *buf_pos <= __CPROVER_old(*buf_pos) + BUFFER_TOLERANCE && \
+        *buf_pos <= (unsigned)al->buffer_len) \
+  __CPROVER_ensures(GE(g_steps == __CPROVER_old(g_steps) + 1))
+int assemble__l(assemblyline_t al, struct instr *I, unsigned int *buf_pos) ASSEMBLE_L_CONTRACT(__CPROVER_rw_ok, __CPROVER_rw_ok, GH_ON, GE_ON);      /* usage form (inside the line loop) */
+int assemble__le(assemblyline_t al, struct instr *I, unsigned int *buf_pos) ASSEMBLE_L_CONTRACT(__CPROVER_is_fresh, __CPROVER_is_fresh, GH_OFF, GE_OFF);   /* enforcement form */
 
-int assemble_counting_chunks__l(assemblyline_t al, struct instr *I, unsigned int *buf_pos, int *chunk_brks)
-  LSTEP_PRE(al, I, buf_pos)
-  __CPROVER_requires(al->chunk_size >= 2 && g_cross >= 0 && g_cross < 0x7fffffff)
-  __CPROVER_requires(chunk_brks == NULL || (__CPROVER_rw_ok(chunk_brks, sizeof(int)) && *chunk_brks >= 0 && *chunk_brks < 0x7fffffff))
-  __CPROVER_assigns(*buf_pos, g_steps, g_cross, __CPROVER_object_whole(I);
-        chunk_brks != NULL : *chunk_brks;
-        LROOM(al, *buf_pos) : __CPROVER_object_upto(al->buffer + *buf_pos, BUFFER_TOLERANCE))
-  __CPROVER_ensures(__CPROVER_return_value == EXIT_SUCCESS || __CPROVER_return_value == EXIT_FAILURE)
-  __CPROVER_ensures(chunk_brks == NULL ==> __CPROVER_return_value == EXIT_FAILURE)
-  __CPROVER_ensures(__CPROVER_return_value == EXIT_FAILURE ==> *buf_pos == __CPROVER_old(*buf_pos) && g_cross == __CPROVER_old(g_cross))
-  __CPROVER_ensures(__CPROVER_return_value == EXIT_SUCCESS ==>
-        __CPROVER_old(*buf_pos) < *buf_pos && *buf_pos <= __CPROVER_old(*buf_pos) + BUFFER_TOLERANCE &&
-        *buf_pos <= (unsigned)al->buffer_len)
-  __CPROVER_ensures((g_cross == __CPROVER_old(g_cross) && (chunk_brks == NULL || *chunk_brks == __CPROVER_old(*chunk_brks))) ||
-                    (g_cross == __CPROVER_old(g_cross) + 1 && chunk_brks != NULL && *chunk_brks == __CPROVER_old(*chunk_brks) + 1))
-  __CPROVER_ensures(g_steps == __CPROVER_old(g_steps) + 1);
+#define ASSEMBLE_COUNTING_CHUNKS_L_CONTRACT(VA, V, GH, GE) \
+  LSTEP_PRE(VA, V, al, I, buf_pos) \
+  __CPROVER_requires(al->chunk_size >= 2 && GE(g_cross >= 0 && g_cross < 0x7fffffff)) \
+  __CPROVER_requires(chunk_brks == NULL || (V(chunk_brks, sizeof(int)) && *chunk_brks >= 0 && *chunk_brks < 0x7fffffff)) \
+  __CPROVER_assigns(*buf_pos, GH(g_steps GH_COMMA g_cross GH_COMMA) __CPROVER_object_whole(I); \
+        chunk_brks != NULL : *chunk_brks; \
+        LROOM(al, *buf_pos) : __CPROVER_object_upto(al->buffer + *buf_pos, BUFFER_TOLERANCE)) \
+  __CPROVER_ensures(__CPROVER_return_value == EXIT_SUCCESS || __CPROVER_return_value == EXIT_FAILURE) \
+  __CPROVER_ensures(chunk_brks == NULL ==> __CPROVER_return_value == EXIT_FAILURE) \
+  __CPROVER_ensures(__CPROVER_return_value == EXIT_FAILURE ==> *buf_pos == __CPROVER_old(*buf_pos) && GE(g_cross == __CPROVER_old(g_cross)) && (chunk_brks == NULL || *chunk_brks == __CPROVER_old(*chunk_brks))) \
+  __CPROVER_ensures(__CPROVER_return_value == EXIT_SUCCESS ==> \
+        __CPROVER_old(*buf_pos) < *buf_pos && *buf_pos <= __CPROVER_old(*buf_pos) + BUFFER_TOLERANCE && \
+        *buf_pos <= (unsigned)al->buffer_len) \
+  __CPROVER_ensures((GE(g_cross == __CPROVER_old(g_cross)) && (chunk_brks == NULL || *chunk_brks == __CPROVER_old(*chunk_brks))) || \
+                    (GE(g_cross == __CPROVER_old(g_cross) + 1) && chunk_brks != NULL && *chunk_brks == __CPROVER_old(*chunk_brks) + 1)) \
+  __CPROVER_ensures(GE(g_steps == __CPROVER_old(g_steps) + 1))
+int assemble_counting_chunks__l(assemblyline_t al, struct instr *I, unsigned int *buf_pos, int *chunk_brks) ASSEMBLE_COUNTING_CHUNKS_L_CONTRACT(__CPROVER_rw_ok, __CPROVER_rw_ok, GH_ON, GE_ON);      /* usage form (inside the line loop) */
+int assemble_counting_chunks__le(assemblyline_t al, struct instr *I, unsigned int *buf_pos, int *chunk_brks) ASSEMBLE_COUNTING_CHUNKS_L_CONTRACT(__CPROVER_is_fresh, __CPROVER_is_fresh, GH_OFF, GE_OFF);   /* enforcement form */
 
-int assemble_with_chunk_fitting__l(assemblyline_t al, struct instr *I, unsigned int *buf_pos)
-  LSTEP_PRE(al, I, buf_pos)
-  __CPROVER_requires(al->chunk_size >= 2)
-  __CPROVER_assigns(*buf_pos, g_steps, __CPROVER_object_whole(I);
-        LROOM(al, *buf_pos) : __CPROVER_object_from(al->buffer + *buf_pos))
-  __CPROVER_ensures(__CPROVER_return_value == EXIT_SUCCESS || __CPROVER_return_value == EXIT_FAILURE)
-  __CPROVER_ensures(!LROOM(al, __CPROVER_old(*buf_pos)) ==> __CPROVER_return_value == EXIT_FAILURE && *buf_pos == __CPROVER_old(*buf_pos))
-  __CPROVER_ensures(*buf_pos <= (unsigned)al->buffer_len && *buf_pos >= __CPROVER_old(*buf_pos))
-  __CPROVER_ensures(__CPROVER_return_value == EXIT_SUCCESS ==> *buf_pos > __CPROVER_old(*buf_pos))
-  __CPROVER_ensures(g_steps == __CPROVER_old(g_steps) + 1);
+#define ASSEMBLE_WITH_CHUNK_FITTING_L_CONTRACT(VA, V, GH, GE) \
+  LSTEP_PRE(VA, V, al, I, buf_pos) \
+  __CPROVER_requires(al->chunk_size >= 2) \
+  __CPROVER_assigns(*buf_pos, GH(g_steps GH_COMMA) __CPROVER_object_whole(I); \
+        LROOM(al, *buf_pos) : __CPROVER_object_from(al->buffer + *buf_pos)) \
+  __CPROVER_ensures(__CPROVER_return_value == EXIT_SUCCESS || __CPROVER_return_value == EXIT_FAILURE) \
+  __CPROVER_ensures(!LROOM(al, __CPROVER_old(*buf_pos)) ==> __CPROVER_return_value == EXIT_FAILURE && *buf_pos == __CPROVER_old(*buf_pos)) \
+  __CPROVER_ensures(*buf_pos <= (unsigned)al->buffer_len && *buf_pos >= __CPROVER_old(*buf_pos)) \
+  __CPROVER_ensures(__CPROVER_return_value == EXIT_SUCCESS ==> *buf_pos > __CPROVER_old(*buf_pos)) \
+  __CPROVER_ensures(GE(g_steps == __CPROVER_old(g_steps) + 1))
+int assemble_with_chunk_fitting__l(assemblyline_t al, struct instr *I, unsigned int *buf_pos) ASSEMBLE_WITH_CHUNK_FITTING_L_CONTRACT(__CPROVER_rw_ok, __CPROVER_rw_ok, GH_ON, GE_ON);      /* usage form (inside the line loop) */
+int assemble_with_chunk_fitting__le(assemblyline_t al, struct instr *I, unsigned int *buf_pos) ASSEMBLE_WITH_CHUNK_FITTING_L_CONTRACT(__CPROVER_rw_ok, __CPROVER_is_fresh, GH_OFF, GE_OFF);   /* enforcement form; the instance is built by the harness so that its chunk size is a literal */
 
 /* Whole call.  inst_inv in; the result is ASM_ERROR or a position in [offset, buffer_len];
  * nothing before buffer+offset and nothing outside the buffer is written; the instance itself
